@@ -2,6 +2,7 @@
 
 import json
 import os
+import re
 import shutil
 import subprocess
 import sys
@@ -132,6 +133,11 @@ def run(run):
                 text = S.print_schema([{"kind": "mod", "path": ["part"]}] + decls[k:])
             else:
                 text = S.print_schema(decls)
+            if i % 2 == 0:
+                # parameters spelled the terse way the grammar allows (no parentheses, a bare word as value, after
+                # another parameter): `| range(0, 6000) | unit rpm,` - text with more than one possible derivation
+                text = re.sub(r'\|unit\("(rpm|V|C|kg)"\),', r'| range(0, 6000) | unit \1,', text)
+                run.count("schemas_with_terse_parameters", len(re.findall(r"\| unit (rpm|V|C|kg),", text)) and 1)
             p = os.path.join(d, "main.fcp")
             open(p, "w").write(text)
             paths.append(p)
